@@ -244,8 +244,13 @@ def run_jobs(jobs: List[Job], nproc: int = NPROC) -> List[Result]:
         # prepare sources once (single-threaded) so that the cache is filled
         for m in sorted({j.module for j in jobs}):
             _prepare(m, tmpdir)
+        # longest-first scheduling (purely a wall-time matter): obligations known to be heavy start first
+        heavy = ("STACK-ADJ", "NamedNumber", "TimeDuration", "@latent", "STREAM", "ruleDateInterval", "ruleDateTimeDateTime", "API", "EMBED", "SUBJECT", "FIT", "latent-interval", "COUNT")
+        order = sorted(range(len(jobs)), key=lambda i: (-sum(1 for h in heavy if h in jobs[i].name), i))
         with ThreadPoolExecutor(max_workers=nproc) as ex:
-            return list(ex.map(lambda j: run_job(j, tmpdir), jobs))
+            done = list(ex.map(lambda i: (i, run_job(jobs[i], tmpdir)), order))
+        done.sort(key=lambda x: x[0])
+        return [r for _, r in done]
     finally:
         _SRC_CACHE.clear()
         shutil.rmtree(tmpdir, ignore_errors=True)
